@@ -173,6 +173,17 @@ theorem collect_lt (sel : Method → Bool) (es : List (Nat × Nat × Method)) (N
 theorem length_slotsIf (sel : Bool) (start n : Nat) : (slotsIf sel start n).length = if sel then n else 0 := by
   unfold slotsIf; cases sel <;> simp
 
+
+theorem collect_eq_nil (sel : Method → Bool) (es : List (Nat × Nat × Method)) (h : ∀ e ∈ es, sel e.2.2 = false) :
+    collect sel es = [] := by
+  induction es with
+  | nil => rfl
+  | cons e es ih =>
+    obtain ⟨start, n, m⟩ := e
+    have h0 : sel m = false := h (start, n, m) (by simp)
+    simp only [collect, slotsIf, h0, Bool.false_eq_true, if_false, List.nil_append]
+    exact ih (fun e he => h e (List.mem_cons_of_mem _ he))
+
 theorem mem_collect_of_mem {sel : Method → Bool} {es : List (Nat × Nat × Method)} {e : Nat × Nat × Method}
     (he : e ∈ es) (hs : sel e.2.2 = true) {x : Nat} (h1 : e.1 ≤ x) (h2 : x < e.1 + e.2.1) : x ∈ collect sel es := by
   induction es with
@@ -570,6 +581,46 @@ theorem gaussSolve_correct (n : Nat) (A : List (List K)) (b : List K) (hs : Shap
           apply elimStep_rows_hold a11 row1 b1 _ xs n ha h1 hpiv rows bs hlen hrows'
           rw [← hsub]
           simpa [matVec, List.map_map, Function.comp] using hih
+
+theorem gaussSolve_length (n : Nat) (A : List (List K)) (b : List K) (hs : Shape n A b) :
+    (gaussSolve n A b).length = n := by
+  induction n generalizing A b with
+  | zero => simp [gaussSolve]
+  | succ n ih =>
+    obtain ⟨hA, hb, hrows⟩ := hs
+    cases A with
+    | nil => simp at hA
+    | cons row0 rows =>
+      cases b with
+      | nil => simp at hb
+      | cons b1 bs =>
+        have h0 := hrows row0 (by simp)
+        cases row0 with
+        | nil => simp at h0
+        | cons a11 row1 =>
+          have h1 : row1.length = n := by simpa using h0
+          have hrows' : ∀ row ∈ rows, row.length = n + 1 := fun r hr => hrows r (List.mem_cons_of_mem _ hr)
+          have hshape : Shape n ((elimStep a11 row1 b1 rows bs).map (fun p => p.1)) ((elimStep a11 row1 b1 rows bs).map (fun p => p.2)) := by
+            refine ⟨?_, ?_, elimStep_rows_length a11 row1 b1 rows bs n h1 hrows'⟩
+            · simp [elimStep_length]; simp at hA hb; omega
+            · simp [elimStep_length]; simp at hA hb; omega
+          simp only [gaussSolve, List.length_cons, ih _ _ hshape]
+
+/-- `calcMotionPower`: the fold is `−Σ tau_i u_{p_i}` -/
+theorem motionPower_eq (tau : List K) (p : List Nat) (u : List K) :
+    motionPower tau p u = - dot tau (pick u p) := by
+  have key : ∀ (l1 l2 : List K) (acc : K),
+      (l1.zip l2).foldl (fun acc tu => acc - tu.1 * tu.2) acc = acc - dot l1 l2 := by
+    intro l1
+    induction l1 with
+    | nil => intro l2 acc; simp
+    | cons a as ih =>
+      intro l2 acc
+      cases l2 with
+      | nil => simp
+      | cons b bs => simp only [List.zip_cons_cons, List.foldl_cons, dot_cons]; rw [ih]; ring
+  unfold motionPower
+  rw [key]; ring
 end gauss
 
 /-! ## reading single equations off the list model -/
